@@ -263,6 +263,7 @@ void World::CheckTermination(const InvRecord& r) {
     std::map<std::string, int> pool_use;
     int nfailed = 0;
     int ep = -1;
+    bool manifest_phase = false;
     for (const SpawnRec& x : r.spawns) {
       if (x.sysno < e.sysno) {
         ep = std::max(ep, x.epoch);
@@ -270,8 +271,12 @@ void World::CheckTermination(const InvRecord& r) {
         for (const Ev& q : r.res.trace) if (q.kind == Ev::kReap && q.a == x.pid && q.sysno < e.sysno) reaped_before = true;
         if (!reaped_before) { running++; pool_use[x.pool]++; }
         else if (x.reap_status != 0) nfailed++;
+        // while the manifest's generator runs nothing else is in the plan: bringing build.ninja up
+        // to date is a build of its own (and not a new epoch when a restat generator leaves it alone)
+        if (!reaped_before && sc.stmts[x.stmt].regen) manifest_phase = true;
       }
     }
+    if (manifest_phase) continue;
     if (r.plan.k > 0 && nfailed >= r.plan.k) continue;
     if (running >= eff_j) continue;
     for (const SpawnRec& x : r.spawns) {
